@@ -215,7 +215,7 @@ def decompose_cphase_into_two_fsim(
     #
     # Step 3: synthesize output circuit
     #
-    return (
+    decomposition: tuple[cirq.Operation, ...] = (
         # Local X rotations to convert Γ1⊗I − iZ⊗Γ2 into exp(-i Z⊗Z δ/4)
         ops.rx(xi).on(q0),
         ops.rx(eta).on(q1),
@@ -241,3 +241,7 @@ def decompose_cphase_into_two_fsim(
         ops.rz(-delta / 2).on(q1),
         ops.global_phase_operation(np.exp(-1j * delta / 4)),
     )
+    if cphase_gate.global_shift != 0:
+        shift_phase = np.exp(1j * np.pi * cphase_gate.global_shift * cphase_gate.exponent)
+        decomposition += (ops.global_phase_operation(shift_phase),)
+    return decomposition
